@@ -57,6 +57,16 @@ class NeedCase(Und):
         self.key = key
 
 
+class NeedOrder(Und):
+    """The evaluated code iterates over a set of opaque values (classes, symbols): CPython's order depends on hash values that differ
+    from run to run, so every order is a possible run.  The driver (`decided` with a world) evaluates ALL orders and requires one
+    common result; outside that driver it is an ordinary Und (undecided)."""
+
+    def __init__(self, key: frozenset, what: str) -> None:
+        super().__init__(what)
+        self.key = key
+
+
 class PyExc(Exception):
     """The analysed code raises."""
 
@@ -222,6 +232,8 @@ class Func:
         self.fi = fi
         self.closure = closure
         self.generated = generated
+        self.raw = False             # the function object BEFORE its decorators were applied (what a decorator receives)
+        self.wrapped = None          # functools.wraps / update_wrapper: the function this one stands in for (__wrapped__)
 
     @property
     def name(self) -> str:
@@ -316,6 +328,24 @@ class _Continue(Exception):
     pass
 
 
+class _GenClose(BaseException):
+    """The consumer dropped a suspended generator: its evaluation is unwound (finally blocks run), as generator.close() does."""
+
+
+class _YieldSink:
+    """fr.yields of a generator frame: every yielded value is handed to the consumer, and evaluation continues when it asks again."""
+
+    def __init__(self, put) -> None:
+        self.put = put
+
+    def append(self, v) -> None:
+        self.put(v)
+
+    def extend(self, items) -> None:
+        for v in items:
+            self.put(v)
+
+
 MISSING = object()
 _PH = re.compile(r"Zq(\d+)qZ")
 _EXC_NAMES = {"Exception", "BaseException", "KeyError", "IndexError", "LookupError", "TypeError", "ValueError", "AttributeError",
@@ -331,7 +361,7 @@ _EXT_CLASSES = {"typing.TypeVar": "typevar", "typing_extensions.TypeVar": "typev
                 "inspect.Signature": "signature", "dataclasses.Field": "field", "types.CodeType": "code"}
 # library objects modelled as records: attribute names that CERTAINLY do not exist on the real object (getattr defaults rely on them);
 # any other unmodelled attribute is undecided
-_LIBRARY_RECS = {"signature": (), "parameter": (), "field": (), "argspec": (), "code": (), "funccode": (), "function": ("__wrapped__",), "suppress": (), "template": (), "stringio": (),
+_LIBRARY_RECS = {"struct": (), "signature": (), "parameter": (), "field": (), "argspec": (), "code": (), "funccode": (), "function": ("__wrapped__",), "suppress": (), "template": (), "stringio": (),
                  "nullcontext": (), "staticmethod": (), "classmethod": ()}
 _ALL_BUILTINS = frozenset(dir(__import__("builtins")))
 _OPERATOR_FNS = {"is", "is_not", "eq", "ne", "lt", "le", "gt", "ge", "contains", "not", "truth", "getitem", "add", "concat", "sub", "mul", "mod",
@@ -411,6 +441,8 @@ class World:
         self.exec_texts: list = []     # every source text handed to exec(), in order
         self.forking = False           # inside `forked`: questions about opaque default values are answered per case
         self.assumed: dict = {}        # ("truth" | "none", default symbol) -> bool, the case under evaluation
+        self.in_const = 0              # > 0 while a value that is cached for all runs (module constant, decorated function) is computed
+        self.orders: dict = {}         # frozenset of opaque values -> the iteration order under evaluation (`decided`)
 
     def place(self, part) -> str:
         try:
@@ -488,7 +520,11 @@ class Interp:
         if isinstance(r, tuple) and r[0] == "const":
             key = id(r[2])
             if key not in self.w.consts:
-                self.w.consts[key] = self.ev(r[2], self.module_frame(r[1]))
+                self.w.in_const += 1
+                try:
+                    self.w.consts[key] = self.ev(r[2], self.module_frame(r[1]))
+                finally:
+                    self.w.in_const -= 1
             return self.w.consts[key]
         if isinstance(r, tuple) and r[0] == "module" and r[1] is not None:
             return ModRef(r[1])
@@ -710,6 +746,8 @@ class Interp:
             if isinstance(item, str):
                 return item in container
             return None
+        if isinstance(container, (set, frozenset)) and isinstance(item, (list, dict, set)):
+            raise PyExc("TypeError", f"unhashable type: {type(item).__name__!r}")       # a set lookup hashes the item first
         if isinstance(container, (list, tuple, set, frozenset, range)):
             res = False
             for x in container:
@@ -776,7 +814,16 @@ class Interp:
             if len(v) <= 1 or is_concrete(v):
                 yield from sorted(v, key=repr)
                 return
-            raise Und("iteration order of a set of symbols")
+            key = frozenset(v)
+            order = self.w.orders.get(key)
+            if self.w.in_const:
+                raise Und("a module-level constant is computed from the iteration order of a set of symbols")
+            if order is None:
+                if len(v) > 4:
+                    raise Und(f"iteration order of a set of {len(v)} symbols")
+                raise NeedOrder(key, "iteration order of a set of symbols")
+            yield from order
+            return
         if isinstance(v, (Sym, SStr, App)) or not self.surely_not_iterable(v):
             raise Und(f"iteration over the opaque value {v!r}")
         raise PyExc("TypeError", f"{self.type_name(v)} object is not iterable")
@@ -926,7 +973,11 @@ class Interp:
                 if key in ci.attrs:
                     k = id(ci.attrs[key])
                     if k not in self.w.consts:
-                        self.w.consts[k] = self.ev(ci.attrs[key], self.module_frame(ci.module))
+                        self.w.in_const += 1
+                        try:
+                            self.w.consts[k] = self.ev(ci.attrs[key], self.module_frame(ci.module))
+                        finally:
+                            self.w.in_const -= 1
                     return self.w.consts[k]
         return MISSING
 
@@ -1111,11 +1162,15 @@ class Interp:
         return out[skip:]
 
     def _func_attr(self, f: Func, key, skip: int):
+        if key in ("__name__", "__qualname__", "__doc__", "__module__") and f.wrapped is not None:
+            return self._getattr(f.wrapped, key)
         if key == "__name__":
             return f.name
         if key in ("__code__", "__defaults__", "__kwdefaults__"):
             return function_record(f.name, self.func_params(f, skip)).fields[key]
         if key == "__wrapped__":
+            if f.wrapped is not None:
+                return f.wrapped
             raise PyExc("AttributeError", key)
         raise Und(f"function attribute {key!r}")
 
@@ -1315,6 +1370,116 @@ class Interp:
                 loc[n] = self.ev(d, dfr)
         return loc
 
+    _STD_DECORATORS = ("staticmethod", "classmethod", "abc.abstractmethod", "abstractmethod", "property", "functools.cached_property",
+                       "cached_property", "typing.final", "final", "typing.no_type_check", "no_type_check", "typing.override", "override",
+                       "typing_extensions.override")
+
+    def custom_decorators(self, node) -> list:
+        """The decorator expressions of a def that are not descriptor / marker decorators (those are modelled where the attribute is
+        looked up and do not change what a call evaluates)."""
+        return [d for d in getattr(node, "decorator_list", []) if (chain(d) or "?") not in self._STD_DECORATORS]
+
+    def decorated(self, f: Func, fr: Frame | None = None):
+        """What the name of a decorated def is bound to: the decorator expressions are evaluated (in the module frame for module-level
+        functions and methods, in the defining frame for nested functions) and applied bottom-up to the plain function, exactly as
+        the def statement does.  A wrapper the decorator returns is an ordinary closure that calls the plain function; it is
+        evaluated like any other function, so wrapper and body are analysed as one.  Descriptor decorators (staticmethod,
+        classmethod, property) must be the outermost ones: they are applied at attribute lookup."""
+        key = ("decorated", id(f.node))
+        if fr is None and key in self.w.consts:
+            return self.w.consts[key]
+        raw = Func(f.node, f.module, f.fi, f.closure, f.generated)
+        raw.raw = True
+        val = raw
+        seen_custom_above = False
+        for d in f.node.decorator_list:          # top-down: a descriptor decorator below a custom one is not modelled
+            if (chain(d) or "?") in self._STD_DECORATORS:
+                if seen_custom_above and (chain(d) or "?") in ("staticmethod", "classmethod", "property", "functools.cached_property", "cached_property"):
+                    raise Und(f"decorator `{norm(d)[:40]}` of {f.name} is wrapped by another decorator")
+            else:
+                seen_custom_above = True
+        efr = fr if fr is not None else self.module_frame(f.module)
+        in_class = fr is None and f.fi is not None and f.fi.cls is not None
+        for d in reversed(f.node.decorator_list):
+            if (chain(d) or "?") in self._STD_DECORATORS:
+                continue
+            try:
+                dv = self.ev(d, efr)
+            except PyExc as e:
+                if in_class and e.kind == "NameError":
+                    raise Und(f"decorator `{norm(d)[:40]}` of {f.name} is a name of the class body") from e
+                raise
+            self.w.in_const += fr is None
+            try:
+                val = self.call(dv, [val])
+            finally:
+                self.w.in_const -= fr is None
+        if fr is None:
+            self.w.consts[key] = val
+        return val
+
+    def lazy_generator(self, f: Func, fr: Frame):
+        """The body of a generator function, evaluated ON DEMAND exactly as CPython does: nothing runs before the first item is asked
+        for, evaluation is suspended at every yield and resumed by the next request, and a generator that is dropped is closed.  So the
+        consumer and the generator interleave their effects as at run time, unbounded generators are fine, and whatever ends the body
+        abnormally (an exception of the analysed code, an undecided construct) surfaces at the request during which it happens.
+        The body runs on a helper thread that is strictly alternated with the consumer (one of the two is always blocked)."""
+        import threading
+        it = self
+        resume, produced = threading.Semaphore(0), threading.Semaphore(0)
+        box: dict = {}
+
+        def put(value) -> None:
+            box["item"] = value
+            box["gdepth"] = it.depth
+            produced.release()
+            resume.acquire()
+            it.depth = box["gdepth"]
+            if box.get("close"):
+                raise _GenClose
+
+        def body() -> None:
+            try:
+                it.block(f.node.body, fr)
+            except (_Return, _GenClose):
+                pass
+            except BaseException as e:  # noqa: BLE001  (delivered to the consumer, which re-raises it)
+                box["err"] = e
+            box["done"] = True
+            produced.release()
+
+        def drive():
+            started = False
+            cdepth = it.depth
+            try:
+                while True:
+                    cdepth = it.depth
+                    if started:
+                        resume.release()
+                    else:
+                        if cdepth + 1 > 40:
+                            raise Und("recursion depth")
+                        fr.yields = _YieldSink(put)
+                        it.depth = cdepth + 1
+                        threading.Thread(target=body, daemon=True).start()
+                        started = True
+                    produced.acquire()
+                    it.depth = cdepth
+                    if box.get("done"):
+                        err = box.pop("err", None)
+                        if err is not None:
+                            raise err
+                        return
+                    yield box.pop("item")
+            finally:
+                if started and not box.get("done"):
+                    cdepth = it.depth
+                    box["close"] = True
+                    resume.release()
+                    produced.acquire()
+                    it.depth = cdepth
+        return drive()
+
     def call_plain(self, f: Func, args: list):
         """Evaluate the body of a property getter."""
         loc = self.bind(f, args, {})
@@ -1340,9 +1505,8 @@ class Interp:
             raise Und(f"coroutine {f.name}")
         if f.fi is not None:
             self.w.touched.add(f.fi.where)
-            decs = [d for d in f.fi.decorator_names() if d not in ("staticmethod", "classmethod", "abc.abstractmethod", "abstractmethod")]
-            if decs:
-                raise Und(f"decorated function {f.name} ({', '.join(map(str, decs))})")
+        if not f.raw and not isinstance(f.node, ast.Lambda) and self.custom_decorators(f.node):
+            return self.call(self.decorated(f), args, kw)
         loc = self.bind(f, args, kw)
         fr = Frame(f, ChainMap(loc, *(f.closure.maps if f.closure is not None else [])))
         self.depth += 1
@@ -1350,26 +1514,8 @@ class Interp:
             raise Und("recursion depth")
         is_gen = not isinstance(f.node, ast.Lambda) and any(isinstance(n, (ast.Yield, ast.YieldFrom)) for n in walk_no_nested(f.node) if n is not f.node)
         if is_gen:
-            # the body is evaluated now and its items are replayed on demand: sound as long as the generator does not read state its
-            # consumer writes between two items.  Whatever ends the body abnormally (an exception of the analysed code, an undecided
-            # construct) is delivered where CPython delivers it: when the consumer asks for the item after the last one produced.
-            fr.yields = []
-            err = None
-            try:
-                self.block(f.node.body, fr)
-            except _Return:
-                pass
-            except (PyExc, Und) as e:
-                err = e
-            finally:
-                self.depth -= 1
-            items = fr.yields
-
-            def replay():
-                yield from items
-                if err is not None:
-                    raise err
-            return GenIter(replay(), "generator")
+            self.depth -= 1
+            return GenIter(self.lazy_generator(f, fr), "generator")
         try:
             if isinstance(f.node, ast.Lambda):
                 return self.ev(f.node.body, fr)
@@ -1454,7 +1600,13 @@ class Interp:
         if name == "tuple":
             return tuple(self.iterate(a[0])) if a else ()
         if name in ("set", "frozenset"):
-            return (set if name == "set" else frozenset)(self.iterate(a[0])) if a else (set() if name == "set" else frozenset())
+            if a and isinstance(a[0], (set, frozenset)):
+                return (set if name == "set" else frozenset)(a[0])      # a copy: no order involved
+            items = list(self.iterate(a[0])) if a else []
+            try:
+                return (set if name == "set" else frozenset)(items)
+            except TypeError as e:
+                raise PyExc("TypeError", str(e)) from e
         if name == "dict":
             d: dict = {}
             if a:
@@ -1700,7 +1852,7 @@ class Interp:
             c = a[0].cls if isinstance(a[0], Obj) else a[0]
             return isinstance(c, ClsObj) and "fields" in c.meta
         if name == "inspect.signature":
-            return Rec("signature", parameters=self.signature_params(a[0]))
+            return Rec("signature", parameters=self.signature_params(a[0], follow_wrapped=kw.get("follow_wrapped", True) is not False))
         if name == "inspect.getfullargspec":
             ps = self.signature_params(a[0], keep_self=True)
             return Rec("argspec", args=[k for k, p in ps.items() if p.fields["kindname"] == "pos"],
@@ -1888,6 +2040,27 @@ class Interp:
             cols = [list(self.iterate(x)) for x in a]
             n = max((len(c) for c in cols), default=0)
             return IterObj([tuple(c[i] if i < len(c) else kw.get("fillvalue") for c in cols) for i in range(n)])
+        if name == "functools.wraps" and len(a) == 1 and not kw:
+            return Partial(PyMethod(self, "update_wrapper_swapped"), (a[0],))
+        if name == "functools.update_wrapper" and len(a) == 2 and not kw:
+            return self.call_pymethod(self, "update_wrapper_swapped", [a[1], a[0]], {})
+        if name in ("struct.calcsize", "struct.Struct") and len(a) == 1 and not kw and isinstance(a[0], (str, bytes)):
+            import struct
+            try:
+                size = struct.calcsize(a[0])
+            except struct.error as e:
+                raise PyExc("struct.error", str(e)) from e
+            if short == "calcsize":
+                return size
+            return Rec("struct", format=a[0], size=size)
+        if name == "textwrap.dedent" and len(a) == 1 and not kw and is_strlike(a[0]):
+            import textwrap
+            if isinstance(a[0], Sym):
+                return a[0]              # an identifier: no whitespace to remove
+            return self.w.unplace(textwrap.dedent(self.w.render(a[0])))
+        if name == "textwrap.indent" and len(a) == 2 and not kw and is_strlike(a[0]) and isinstance(a[1], str):
+            import textwrap
+            return self.w.unplace(textwrap.indent(self.w.render(a[0]), a[1]))
         if name == "functools.partial":
             if not a:
                 raise PyExc("TypeError", "partial() needs a callable")
@@ -1934,13 +2107,17 @@ class Interp:
             return self.call(a[0], a[1:])
         raise Und(f"operator.{op}() (not modelled)")
 
-    def signature_params(self, f, keep_self: bool = False) -> dict:
+    def signature_params(self, f, keep_self: bool = False, follow_wrapped: bool = False) -> dict:
         skip = 0
         if isinstance(f, Bound):
             f, skip = f.func, (0 if keep_self else 1)
         if isinstance(f, Rec) and f.kind == "function":
             params = f.fields["params"][skip:]
         elif isinstance(f, Func):
+            while follow_wrapped and f.wrapped is not None:
+                if not isinstance(f.wrapped, Func):
+                    raise Und(f"signature of a wrapper around {f.wrapped!r}")
+                f = f.wrapped
             params = self.func_params(f, skip)
         elif isinstance(f, ObjInit):
             params = [("args", EMPTY, "var"), ("kwargs", EMPTY, "varkw")]
@@ -1956,6 +2133,12 @@ class Interp:
                 for part in path.split("."):
                     obj = self.getattr_(obj, part)
                 return obj
+            if name == "update_wrapper_swapped":
+                # functools.update_wrapper(wrapper=a[1], wrapped=a[0]): copies __name__ / __doc__ / ..., sets __wrapped__, returns wrapper
+                if isinstance(a[1], Func):
+                    a[1].wrapped = a[0]
+                    return a[1]
+                raise Und(f"functools.wraps applied to {a[1]!r}")
             if name == "getitem_swapped":
                 return self.getitem(a[1], a[0])
             if name == "getitems_swapped":
@@ -2337,10 +2520,12 @@ class Interp:
             self.try_(s, fr)
             return
         if isinstance(s, (ast.FunctionDef,)):
+            nf = Func(s, fr.func.module, None, fr.locals if not isinstance(fr.func.node, ast.Module) else None, generated=fr.func.generated)
             if s.decorator_list:
-                raise Und(f"decorated nested function {s.name}")
-            fr.locals[self.ident(s.name)] = Func(s, fr.func.module, None, fr.locals if not isinstance(fr.func.node, ast.Module) else None,
-                                                 generated=fr.func.generated)
+                if len(self.custom_decorators(s)) != len(s.decorator_list):
+                    raise Und(f"descriptor decorator on the nested function {s.name}")
+                nf = self.decorated(nf, fr)
+            fr.locals[self.ident(s.name)] = nf
             return
         if isinstance(s, ast.Assert):
             if not self.cond(s.test, fr):
@@ -2369,7 +2554,28 @@ class Interp:
             return
         if isinstance(s, ast.ImportFrom):
             if s.level or (s.module or "").split(".")[0] == "ipv8":
-                raise Und(f"function-level import from {'.' * s.level}{s.module or ''}")
+                # a function-level import of a library module (the usual way around an import cycle): the same objects a module-level
+                # import of that name denotes
+                m = fr.func.module
+                if s.level:
+                    parts = m.name.split(".") if m.relpath.endswith("__init__.py") else m.name.split(".")[:-1]
+                    parts = parts[: len(parts) - (s.level - 1)]
+                    modname = ".".join(parts + ([s.module] if s.module else []))
+                else:
+                    modname = s.module or ""
+                target = self.repo.modules.get(modname)
+                for al in s.names:
+                    sub = self.repo.modules.get(modname + "." + al.name)
+                    if al.name == "*":
+                        raise Und(f"function-level star import from {modname}")
+                    if target is not None and (al.name in target.classes or al.name in target.functions or al.name in target.constants
+                                               or al.name in target.imports):
+                        fr.locals[al.asname or al.name] = self.global_get(target, al.name)
+                    elif sub is not None:
+                        fr.locals[al.asname or al.name] = ModRef(sub)
+                    else:
+                        raise Und(f"function-level import of {al.name} from {modname} cannot be resolved")
+                return
             for al in s.names:
                 fr.locals[al.asname or al.name] = Ext(f"{s.module}.{al.name}")
             return
@@ -3140,9 +3346,48 @@ def _equal_in_case(w: World, got: dict, exp: dict) -> bool:
     return True
 
 
-def decided(fi_where: str, thunk):
+def _same_outcome(a, b) -> bool:
+    if isinstance(a, PyExc) or isinstance(b, PyExc):
+        return isinstance(a, PyExc) and isinstance(b, PyExc) and a.kind == b.kind
     try:
-        return thunk()
+        return bool(_freeze(a) == _freeze(b))
+    except Exception:  # noqa: BLE001
+        return False
+
+
+_MAX_ORDER_RUNS = 48
+
+
+def _all_orders(w: World, thunk):
+    """thunk() evaluated under EVERY iteration order of each set of opaque values the evaluated code iterates over (discovered lazily:
+    code that never iterates such a set is evaluated exactly once).  Sets with equal contents are taken to iterate in the same
+    order within one run (CPython: same hashes, same insertion history).  All orders must give one outcome - then it holds for
+    every run; different outcomes are undecided (the code's behaviour depends on hash values)."""
+    from itertools import permutations
+    pending: list[dict] = [{}]
+    outcomes: list = []
+    runs = 0
+    try:
+        while pending:
+            orders = pending.pop()
+            runs += 1
+            if runs > _MAX_ORDER_RUNS:
+                raise Und("too many iteration orders of sets of symbols")
+            w.orders = orders
+            try:
+                outcomes.append(thunk())
+            except NeedOrder as e:
+                pending.extend({**orders, e.key: perm} for perm in permutations(sorted(e.key, key=repr)))
+    finally:
+        w.orders = {}
+    if any(not _same_outcome(outcomes[0], o) for o in outcomes[1:]):
+        raise Und("the outcome depends on the iteration order of a set of symbols")
+    return outcomes[0]
+
+
+def decided(fi_where: str, thunk, world: World | None = None):
+    try:
+        return thunk() if world is None else _all_orders(world, thunk)
     except Und as e:
         raise AnalysisError(f"undecided: {fi_where}: {e}") from e
     except RecursionError as e:
@@ -3282,7 +3527,7 @@ def rule_init_template(ctx: Ctx) -> None:
         return run_init(sc, cls, d, get, with_defaults=True)
 
     for d in defs:
-        msg = decided(fi.where, lambda d=d: forked(sc, lambda: one(d)))
+        msg = decided(fi.where, lambda d=d: forked(sc, lambda: one(d)), sc.w)
         if msg and bad is None:
             bad = (d, msg)
     scope_guard(sc, fi.where)
@@ -3331,7 +3576,7 @@ def rule_to_pack_template(ctx: Ctx) -> None:
 
     def first_bad(defs):
         for d in defs:
-            msg = decided(fi.where, lambda d=d: forked(sc, lambda: _pack_disagreement(sc, d, compiled)))
+            msg = decided(fi.where, lambda d=d: forked(sc, lambda: _pack_disagreement(sc, d, compiled)), sc.w)
             if msg:
                 return d, msg
         return None
@@ -3377,7 +3622,7 @@ def rule_from_unpack_template(ctx: Ctx) -> None:
     defs = definitions(_SHAPES_A)
     bad = None
     for d in defs:
-        msg = decided(fi.where, lambda d=d: forked(sc, lambda: _unpack_disagreement(sc, d, compiled)))
+        msg = decided(fi.where, lambda d=d: forked(sc, lambda: _unpack_disagreement(sc, d, compiled)), sc.w)
         if msg:
             bad = (d, msg)
             break
@@ -3403,7 +3648,7 @@ def rule_interpreter(ctx: Ctx) -> None:
 
     def first_bad(where, defs, probe):
         for d in defs:
-            msg = decided(where, lambda d=d: forked(sc, lambda: probe(d)))
+            msg = decided(where, lambda d=d: forked(sc, lambda: probe(d)), sc.w)
             if msg:
                 return d, msg
         return None
@@ -3513,7 +3758,7 @@ def rule_vp_compile(ctx: Ctx) -> None:
 
     bad = None
     for i, d in enumerate(defs):
-        msg = decided(fi.where, lambda d=d, i=i: forked(sc, lambda: one(d, f"D{i}")))
+        msg = decided(fi.where, lambda d=d, i=i: forked(sc, lambda: one(d, f"D{i}")), sc.w)
         if msg:
             bad = (d, msg)
             break
@@ -3595,6 +3840,17 @@ def _annotations_of(sc: Scenario):
     # unhashable list object that type_map passes through unchanged
     spec = [P]
     out.append(("[<payload class>] (a list object, the format_list spelling)", spec, spec))
+    # nesting is defined for every Serializable, not only for VariablePayload definitions: the plain format_list spellings [[Old]] / [Old]
+    # with an old-style Payload (hand-written to_pack_list / from_unpack_list) or a bare Serializable pack and decode as payload-list /
+    # payload, so the dataclass spellings list[Old] / Old must derive exactly those formats
+    for label, base in (("old-style Payload class, not a VariablePayload", "Payload"), ("bare Serializable class", "Serializable")):
+        ci = sc.repo.try_cls(base, SER) or sc.repo.try_cls(base)
+        if ci is None:
+            continue
+        Q = ClsObj("Old" + base, [RepoCls(ci)], {})
+        for origin in ("list", "tuple", "set"):
+            out.append((f"{origin}[<{label}>]", Rec("generic", __origin__=Builtin(origin), __args__=(Q,)), [Q]))
+        out.append((f"<{label}>", Q, Q))
     out.append(("dict", Builtin("dict"), PyExc("NotImplementedError")))
     out.append(("dict[str, int]", Rec("generic", __origin__=Builtin("dict"), __args__=(Builtin("str"), Builtin("int"))), PyExc("NotImplementedError")))
     return out
@@ -3770,7 +4026,54 @@ def _literal_loop_keys(call: ast.Call, name: str, ctx: Ctx | None = None, fi: Fu
     return loop, vals
 
 
-def _effect_sites(ctx: Ctx, fi: FuncInfo, pname: str, effect: str, seen: tuple = ()) -> list:
+def _wrapper_of(ctx: Ctx, fi: FuncInfo):
+    """fi is decorated with one private decorator `@d` / `@d(args)` of the library whose (innermost) function returns a nested def:
+    (FuncInfo of that wrapper, the name by which the wrapper calls the plain function).  The name `fi` is bound to IS the wrapper, so
+    'every path of fi' is every path of the wrapper with the call of that name standing for the decorated body.  None when fi has no
+    such decorator; undecided when the decorator has another shape."""
+    decs = [d for d in fi.node.decorator_list if (chain(d) or "?") not in Interp._STD_DECORATORS]
+    if not decs:
+        return None
+
+    def undecided(why: str):
+        return AnalysisError(f"undecided: {fi.where}: decorator `{norm(decs[0])[:50]}`: {why}")
+    if len(decs) != 1 or len(fi.node.decorator_list) != 1:
+        raise undecided("more than one decorator")
+    d = decs[0]
+    target = d.func if isinstance(d, ast.Call) else d
+    dec = ctx.repo.resolve_name(fi.module, target.id) if isinstance(target, ast.Name) else None
+    if not isinstance(dec, FuncInfo) or dec.decorators or dec.is_async:
+        raise undecided("not a plain function of the library")
+
+    def returned_def(f: FuncInfo):
+        rets = [n for n in walk_no_nested(f.node) if isinstance(n, ast.Return)]
+        if len(rets) != 1 or not isinstance(rets[0].value, ast.Name) or rets[0] not in f.node.body:
+            return None
+        name = rets[0].value.id
+        defs = [n for n in f.node.body if isinstance(n, ast.FunctionDef) and n.name == name]
+        stores = [n for n in walk_no_nested(f.node) if isinstance(n, ast.Name) and n.id == name and isinstance(n.ctx, ast.Store)]
+        if len(defs) != 1 or stores:
+            return None
+        extra = [x for x in defs[0].decorator_list if not (isinstance(x, ast.Call) and (chain(x.func) or "").split(".")[-1] == "wraps")]
+        return None if extra else ctx.repo.info(defs[0])
+    if isinstance(d, ast.Call):
+        dec = returned_def(dec)
+        if dec is None:
+            raise undecided("the factory does not return one nested decorator function")
+    a = dec.node.args
+    if len(a.args) != 1 or a.posonlyargs or a.vararg or a.kwonlyargs or a.kwarg:
+        raise undecided("the decorator does not take exactly the function")
+    fparam = a.args[0].arg
+    wrapper = returned_def(dec)
+    if wrapper is None:
+        raise undecided("the decorator does not return one nested wrapper function")
+    if any(isinstance(n, ast.Name) and n.id == fparam and isinstance(n.ctx, ast.Store) for n in ast.walk(dec.node)) \
+            or fparam in wrapper.params() or wrapper.is_async:
+        raise undecided("the wrapper rebinds the name of the decorated function")
+    return wrapper, fparam
+
+
+def _effect_sites(ctx: Ctx, fi: FuncInfo, pname: str, effect: str, seen: tuple = (), bound: dict | None = None) -> list:
     """Syntax nodes of fi whose NORMAL completion implies the effect on the object parameter `pname` holds: effect 'vp_compile' = it is
     passed to vp_compile, otherwise = its attribute <effect> is stored.  A call of a module-level helper that receives the object and
     has the effect on every path to its normal exit is such a node (the helper is analysed with the parameter bound)."""
@@ -3779,6 +4082,19 @@ def _effect_sites(ctx: Ctx, fi: FuncInfo, pname: str, effect: str, seen: tuple =
         return []
     sites: list = []
     unwrapped = [(c, *_unwrap_partial(fi, c)) for c in calls(fi)]
+    bound = bound or {}
+    va = fi.node.args.vararg
+    if va is not None and va.arg == pname:
+        # a pass-through wrapper `def w(*args, **kw): ... f(*args, **kw)`: the object is args[0] exactly where the whole tuple is forwarded
+        # first to the decorated function, whose first parameter then has the effect on every path of its body
+        for c, f, args, _ in unwrapped:
+            t = bound.get(f.id) if isinstance(f, ast.Name) else None
+            if t is not None and args and isinstance(args[0], ast.Starred) and chain(args[0].value) == pname and f is c.func \
+                    and t.node.args.args and not t.is_async and t.node is not fi.node:
+                first = (t.node.args.posonlyargs + t.node.args.args)[0].arg
+                if _on_every_path(ctx, t, _effect_sites(ctx, t, first, effect, (*seen, fi.node))):
+                    sites.append(c)
+        return sites
     if effect == "vp_compile":
         sites += [c for c, f, args, _ in unwrapped if (chain(f) or "").split(".")[-1] == "vp_compile" and args and chain(args[0]) == pname]
     else:
@@ -3801,16 +4117,19 @@ def _effect_sites(ctx: Ctx, fi: FuncInfo, pname: str, effect: str, seen: tuple =
             continue
         eff = c if f is c.func and args is c.args else ast.copy_location(ast.Call(func=f, args=list(args), keywords=list(kws_)), c)
         targets = _call_targets(ctx, fi, eff)
+        plain_body = False
+        if not targets and isinstance(f, ast.Name) and f.id in bound and f is c.func and not local_defs(fi, f.id):
+            targets, plain_body = [(bound[f.id], False)], True      # the wrapper calls the function it decorates: its undecorated body
         if not targets or len(seen) > 3:
             continue
 
-        def has(tb) -> bool:
-            t, bound = tb
+        def has(tb, plain_body=plain_body) -> bool:
+            t, is_bound = tb
             if t.node is fi.node or any(t.node is x for x in seen) or t.is_async \
-                    or any(d not in ("staticmethod", "classmethod") for d in t.decorator_names()):
+                    or (not plain_body and any(d not in ("staticmethod", "classmethod") for d in t.decorator_names())):
                 return False
             a = t.node.args
-            plain = [x.arg for x in a.posonlyargs + a.args][1 if bound else 0:]
+            plain = [x.arg for x in a.posonlyargs + a.args][1 if is_bound else 0:]
             names = [plain[i] for i in pos if i < len(plain)] + [k for k in kws if k in plain or k in [x.arg for x in a.kwonlyargs]]
             return any(_on_every_path(ctx, t, _effect_sites(ctx, t, n, effect, (*seen, fi.node))) for n in names)
         if all(has(tb) for tb in targets):
@@ -3911,7 +4230,7 @@ def rule_type_map(ctx: Ctx) -> None:  # noqa: C901, PLR0912, PLR0915
                 return dw.it.call(dw.it.func_of(fi), [ann])
             except PyExc as e:
                 return e
-        got = decided(fi.where, one)
+        got = decided(fi.where, one, dw.w)
         if isinstance(got, str):
             n_const += 1
             if desc in _SCALARS or desc.split("[")[-1].rstrip("]") in ("bool", "int", "float"):
@@ -3931,6 +4250,9 @@ def rule_type_map(ctx: Ctx) -> None:  # noqa: C901, PLR0912, PLR0915
     def scenario():  # noqa: PLR0911
         it = dw.it
         conv = dw.it.func_of(cp)
+        dw.counter = 0               # the scenario is evaluated from scratch for every iteration order / case
+        dw.compiles.clear()
+        dw.w.sysmodules.clear()
         a = dw.dataclass("A", 3)
         it.call(conv, [a])
         msg = dw.check_converted(a, "fresh dataclass with a ClassVar annotation")
@@ -3972,21 +4294,27 @@ def rule_type_map(ctx: Ctx) -> None:  # noqa: C901, PLR0912, PLR0915
             return scenario()
         except PyExc as e:
             return f"convert_to_payload raises {e}"
-    msg = decided(cp.where, guarded)
+    msg = decided(cp.where, guarded, dw.w)
     ctx.check(msg is None, "type-map", cp, cp.node,
               "names and format_list are derived from the same dataclasses.fields() order of the class itself and the class is replaced by vp_compile(dataclass_type) "
               "(fresh / re-converted / derived dataclasses, ClassVar pseudo-fields, with and without msg_id)",
               f"names and formats of a dataclass payload come from different orders or not from its own definition: {msg}" if msg else "")
     scope_guard(dw, cp.where)
     # every class that reaches convert_to_payload is converted from ITS OWN fields: no early exit / guard that an inherited attribute could satisfy
-    p = cp.params()[0]
-    nm, fl, comp = (_effect_sites(ctx, cp, p, e) for e in ("names", "format_list", "vp_compile"))
+    entry, bound = cp, {}
+    wrapped = _wrapper_of(ctx, cp)
+    if wrapped is not None:
+        entry, bound = wrapped[0], {wrapped[1]: cp}      # the name convert_to_payload denotes the decorator's wrapper around this body
+        if not entry.params():
+            raise AnalysisError(f"undecided: {cp.where}: the wrapper `{entry.qualname}` takes no parameter")
+    p = entry.params()[0]
+    nm, fl, comp = (_effect_sites(ctx, entry, p, e, bound=bound) for e in ("names", "format_list", "vp_compile"))
     if msg is None and not (nm and fl and comp):
         # the evaluated scenarios show that names / format_list are stored and the class is compiled, but not by a statement this rule
         # can attribute to the class parameter: 'on every path' cannot be decided on the syntax
         raise AnalysisError(f"undecided: {cp.where}: the statements that store names / format_list on `{p}` and pass it to vp_compile are not "
                             "recognisable (found: " + ", ".join(f"{k}={len(v)}" for k, v in (("names", nm), ("format_list", fl), ("vp_compile", comp))) + ")")
-    ok = bool(nm) and bool(fl) and bool(comp) and all(_on_every_path(ctx, cp, grp) for grp in (nm, fl, comp))
+    ok = bool(nm) and bool(fl) and bool(comp) and all(_on_every_path(ctx, entry, grp) for grp in (nm, fl, comp))
     ctx.check(ok, "type-map", cp, cp.node, "convert_to_payload always derives names/format_list and compiles (no skip path)",
               "convert_to_payload can return without deriving names/format_list and compiling the class (e.g. a 'convert once' guard satisfied by an attribute "
               "inherited from a parent dataclass payload): the subclass keeps the parent's wire format and drops its own fields")
@@ -4068,6 +4396,8 @@ WITNESSES = [
                {"file": PD, "old": "    dataclass_type.names = [field.name for field in dt_fields]  # type: ignore[attr-defined]\n",
                 "new": "    dataclass_type.names = [name for name in inspect.signature(dataclass_type.__init__).parameters\n"
                        "                            if name in {field.name for field in dt_fields}]\n"}]},
+    {"name": "list of old-style payloads no longer nests (element test narrowed to VariablePayload)", "file": PD, "rule": "type-map",
+     "old": "        if issubclass(fmt, Serializable):\n            return [fmt]", "new": "        if issubclass(fmt, VariablePayload):\n            return [fmt]"},
     {"name": "dataclass formats from sorted hints", "file": PD, "rule": "type-map",
      "old": "    dataclass_type.format_list = [type_map(type_hints[field.name]) for field in  # type: ignore[attr-defined]\n                                  dt_fields]",
      "new": "    dataclass_type.format_list = [type_map(type_hints[name]) for name in  # type: ignore[attr-defined]\n                                  sorted(type_hints)]"},
